@@ -321,9 +321,10 @@ def mintNeo (e : Env) (l : Ledger) (h : Nat) (amount : Int) : Option Ledger :=
     else none
 
 /-- GAS.MintDeferrable with callOnPayment = true (204, 206, 1111): the receiving contract's onNEP17Payment runs
-with `from` = null; the helper contracts accept, the contracts of `e.noMint` panic. -/
+with `from` = null; the helper contracts accept; Notary.onPayment (231), NEO.onNEP17Payment (903) and the contracts
+of `e.noMint` convert `from` with toUint160, which panics on Null. -/
 def mintGasCb (e : Env) (l : Ledger) (h : Nat) (amount : Int) : Option Ledger :=
-  if amount ≠ 0 ∧ e.noMint.contains h then none else mintGas l h amount
+  if amount ≠ 0 ∧ (h = e.notary ∨ h = e.neoC ∨ e.noMint.contains h) then none else mintGas l h amount
 
 /-- the two deferred distributions of postTransfer's continuation (194-216). -/
 def mintDists (e : Env) (l : Ledger) (d1 d2 : Option (Nat × Int)) : Option Ledger :=
@@ -360,6 +361,20 @@ def unregister (l : Ledger) (pub : Nat) (wit : Bool) : Ledger × Bool :=
       | some l' => (l', true)
       | none => ({ l with cands := put l.cands pub c' }, true)
 
+/-- the candidate checks of vote (1056-1068): unvoting needs none; a key must have a record that is registered. -/
+def candOk (l : Ledger) : Option Nat → Bool
+  | none => true
+  | some p =>
+    match get l.cands p with
+    | none => false
+    | some cd => cd.reg
+
+/-- the account item written by vote (1086-1097): the new vote; LastGasPerVote is the latest value of the new
+candidate, or 0 when the vote is revoked (the second ModifyAccountVotes in between reads only `vote`). -/
+def voteNewAcc (l : Ledger) (acc : NeoAcc) : Option Nat → NeoAcc
+  | some p => { acc with vote := some p, lgpv := latestGpv l p }
+  | none => { acc with vote := none, lgpv := 0 }
+
 /-- voteDeferrable + voteInternalUncheckedDeferrable (1008-1115) up to the GAS mint:
 (ledger, result, GAS to mint to the voter). -/
 def votePre (e : Env) (l : Ledger) (h : Nat) (pub : Option Nat) (wit : Bool) : Ledger × Bool × Option Int :=
@@ -368,12 +383,7 @@ def votePre (e : Env) (l : Ledger) (h : Nat) (pub : Option Nat) (wit : Bool) : L
     match get l.neo h with
     | none => (l, false, none)
     | some acc =>
-      let candOk : Bool := match pub with
-        | none => true
-        | some p => match get l.cands p with
-          | none => false
-          | some cd => cd.reg
-      if !candOk then (l, false, none)
+      if !candOk l pub then (l, false, none)
       else
         let l1 : Ledger :=
           if acc.vote.isNone != pub.isNone then
@@ -385,15 +395,10 @@ def votePre (e : Env) (l : Ledger) (h : Nat) (pub : Option Nat) (wit : Bool) : L
           match modVotes l1 acc1 (-acc1.bal) false with
           | (l2, false) => (l2, false, none)
           | (l2, true) =>
-            let acc2 : NeoAcc := match pub with
-              | some p => { acc1 with lgpv := latestGpv l2 p }
-              | none => acc1
-            let acc3 : NeoAcc := { acc2 with vote := pub }
+            let acc3 := voteNewAcc l2 acc1 pub
             match modVotes l2 acc3 acc3.bal true with
             | (l3, false) => (l3, false, none)
-            | (l3, true) =>
-              let acc4 : NeoAcc := if pub.isNone then { acc3 with lgpv := 0 } else acc3
-              ({ l3 with neo := put l3.neo h acc4 }, true, newGas)
+            | (l3, true) => ({ l3 with neo := put l3.neo h acc3 }, true, newGas)
 
 /-! ## Notary -/
 
